@@ -36,7 +36,7 @@ for rp in re.findall(r"replay=(\S+)", check_txt):
     except Exception:
         pass
 meta_in = json.load(open(os.path.join(src, "meta.json")))
-head = subprocess.run(["git", "-C", "/repo", "rev-parse", "--short", "HEAD"], capture_output=True, text=True).stdout.strip()
+head = subprocess.run(["git", "-C", "/repo", "rev-parse", "--short", os.environ.get("SEED_BASE", "HEAD")], capture_output=True, text=True).stdout.strip()
 dst = "/verif/seeded/%s_%s" % (pid, wave)
 os.makedirs(dst, exist_ok=True)
 for f in ("patch.diff", "demo.py"):
